@@ -3,5 +3,6 @@ pub mod c14;
 pub mod c16;
 pub mod structs;
 pub mod c05;
+pub mod c04;
 pub mod c03;
 pub mod c02;
